@@ -539,6 +539,12 @@ where
                     err.insert(Value::Null, ctx);
                     value
                 }
+                // `abort` and `return` end the program; they are not errors that
+                // can be captured in `err`.
+                Err(
+                    error @ (crate::compiler::ExpressionError::Abort { .. }
+                    | crate::compiler::ExpressionError::Return { .. }),
+                ) => return Err(error),
                 Err(error) => {
                     ok.insert(default.clone(), ctx);
                     let value = Value::from(error.to_string());
